@@ -480,6 +480,12 @@ func (env *rEnv) eval(n *rNode) Value {
 		env.pol = 0
 		c := env.term(n.Args[0])
 		env.pol = savedPol
+		if c.IsTrue() {
+			return env.eval(n.Args[1])
+		}
+		if c.IsFalse() {
+			return env.eval(n.Args[2])
+		}
 		a := env.eval(n.Args[1])
 		b := env.eval(n.Args[2])
 		as, ok1 := a.(VSym)
